@@ -80,11 +80,14 @@ class Exec(Executor):
 
     def st_Assign(self, stmt: ast.Assign, st: State) -> list[Res]:
         def f(v, s):
+            extra: list[Res] = []
             for t in stmt.targets:
                 r = self.assign_target(t, v, s, stmt)
+                if s.ghost.get("pending_raises"):
+                    extra.extend(s.ghost.pop("pending_raises"))
                 if r is not None:
-                    return r
-            return self.ok(None, s)
+                    return extra + r
+            return extra + self.ok(None, s)
 
         return self._fall(self.bind(self.ev(stmt.value, st), f))
 
